@@ -55,7 +55,7 @@ impl Writer {
 
 //@extract src/writer.rs | impl<D: Distance> Writer<D> | insert_items_in_file
 //@attr #[verifier::exec_allows_no_decreases_clause]
-//@hint after <<<opt.cancelled()?;>>>
+//@hint start <<<>>>
         let ghost m = frozen_reader.trees.snap();
         let ghost u0 = (tmp_nodes.taken())(self.index);
         let ghost s = tnodes(m, current_node);
